@@ -124,14 +124,23 @@ let () =
       let tops = List.sort_uniq compare (List.filter_map (fun (p, _) ->
           let top = List.nth p nd in
           match Fs.lookup f0 (dest @ [top]) with None -> Some (hex_of_bytes top) | Some _ -> None) inside) in
-      let seen = Hashtbl.create 16 in
-      let tree = List.sort compare (List.filter_map (fun (p, nd_) ->
+      let listing ffs =
+        let inside = List.filter (fun (p, _) -> is_prefix dest p && List.length p > nd) ffs in
+        let seen = Hashtbl.create 16 in
+        List.sort compare (List.filter_map (fun (p, nd_) ->
           let k = String.concat "/" (List.map hex_of_bytes (drop nd p)) in
           if Hashtbl.mem seen k then None else begin
             Hashtbl.add seen k ();
             Some (match nd_ with
                 | Fs.Dir -> "d:" ^ k
                 | Fs.File c -> Printf.sprintf "f:%s:%d:%s" k (List.length c) (Digest.to_hex (Digest.string (str_of_bytes c)))) end) inside) in
+      let tree = listing ffs in
+      (* the specification (a function of the entries alone): the name per entry, and its final
+         file system must be the one the two machines produced *)
+      let spec = match tr_spec cfg dest (List.map fst ess) (Names.init_state f0) [] with
+        | Some ((per, all), st) ->
+          Printf.sprintf "%s;%s;%s" (hexs per) (hexs all) (b01 (listing st.Names.st_fs = tree))
+        | None -> "none" in
       (* the tags of the REAL merged transcript (acks of the window moved behind the finish flag)
          run through the model's automaton *)
       let dummy c : n list Transfer.tr_msg = match c with
@@ -140,9 +149,9 @@ let () =
         | 'A' -> Transfer.TrSuccAck (N0, N0) | '5' -> Transfer.TrMd5 [] | 'X' -> Transfer.TrExit []
         | 'S' -> Transfer.TrSuccInt N0 | _ -> Transfer.TrFail in
       let order = tr_shape_ok pipeline (List.init (String.length tags) (fun i -> (true, dummy tags.[i]))) in
-      Printf.sprintf "S=%s|R=%s|SN=%s|RN=%s|NEW=%s|SHAPE=%s|TREE=%s|C2S=%s|S2C=%s|ORDER=%s"
+      Printf.sprintf "S=%s|R=%s|SN=%s|RN=%s|NEW=%s|SHAPE=%s|TREE=%s|C2S=%s|S2C=%s|ORDER=%s|SPEC=%s"
         (b01 (tr_sender_ok cf)) (b01 (tr_receiver_ok cf))
         (hexs cf.Transfer.cf_s.Transfer.ss_names) (hexs cf.Transfer.cf_r.Transfer.rs_names)
         (String.concat "," tops) (b01 (tr_shape_ok pipeline cf.Transfer.cf_log))
-        (String.concat "," tree) c2s s2c (b01 order)
+        (String.concat "," tree) c2s s2c (b01 order) spec
     | _ -> "?args")
